@@ -119,3 +119,17 @@ claim("C19", "DESIGN.md 5/C19",
       "missing) for every scripted plugin behaviour: the document must equal the decode from the empty state and the "
       "cache invariant must hold afterwards. Plus --all-pels forward / reverse on good-damaged-good directories. The "
       "static inventory of mutated module/class-level state is reported in the evidence.")
+
+claim("C14", "DESIGN.md 5/C14",
+      "parse_ilog_data / PTETable / PTETableEntry are executed on buffers of 0..2 entries plus a 0..7 byte tail with the "
+      "time stamp, sequence number and PTE symbolic (line format, zero-entry skip, partial-entry cut, time-stamp text "
+      "and its inverse per hour), on a synthetic table of overlapping patterns with the PTE symbolic per leading nibble "
+      "(first match in file order, reported-flag handling, ' - PEL entry created' suffix, parameter substitution, "
+      "%-mismatch and out-of-range parameters), on stub entries with symbolic match results, and - for every distinct "
+      "pattern of both shipped tables - matches(pte) against the nibble-mask statement for all 32-bit PTEs.")
+claim("C16", "DESIGN.md 5/C16",
+      "parse_hlog_data / get_hlog_fields are executed on two synthetic field tables (both accepted header layouts) and "
+      "both shipped tables with a 3-byte symbolic window at catalogue offsets or a symbolic data length 0..full+2: "
+      "the dump section must be the default-format dump of all bytes (lossless by C13), followed by exactly the non-zero "
+      "fields in order with contiguous offsets, zero-padded to the field width, stopping at the first field that does "
+      "not fit; and the same header path serving another table on the next call.")
